@@ -381,7 +381,10 @@ def run(ctx):
         raise AnalysisError('utils.read_notebook: no NotJSONError handler found')
     for h, sites in hs:
         if not sites:
-            raise AnalysisError('utils.read_notebook: empty-file test not found in the NotJSONError handler')
+            always = bool(h.body) and isinstance(h.body[-1], ast.Raise)
+            ctx.inst('R08.7', 'nbdime.utils:read_notebook', 'except NotJSONError without a content test', always,
+                     'unreadable input is always an error' if always else
+                     'any non-JSON input is replaced by an empty notebook without looking at its content', h)
         for x in sites:
             ok = pure_emptiness_test(x.test)
             ctx.inst('R08.7', 'nbdime.utils:read_notebook', 'if %s: raise' % repo.norm(x.test), ok,
